@@ -60,12 +60,16 @@ fn eval_inner(req: &str) -> Case {
         "serde_legacy" => crate::misc::eval_serde_legacy(req, f[1], f[2], f[3]),
         "serde_semver" => crate::misc::eval_serde_semver(req, f[1].parse().unwrap(), f[2].parse().unwrap(), f[3].parse().unwrap()),
         "serde_provider" => crate::misc::eval_serde_provider(req, f[1], f[2], f[3].parse().unwrap()),
+        "soak" => crate::misc::eval_soak(req, f[1].parse().unwrap(), f[2], f[3].parse().unwrap()),
         "det" => crate::misc::eval_det(req, f[1], f[2], f[3].parse().unwrap(), f[4]),
         "report" => crate::report::eval_report(f[1], f[2]),
         "collapse" => crate::report::eval_collapse(f[1], f[2], f[3], f[4].parse().unwrap()),
         "solve" => {
             let prop = CURRENT_PROP.with(|p| p.borrow().clone());
-            if f[1] == "bits" {
+            if f[1] == "bits2" {
+                let r = crate::solver::parse_req::<crate::hset::BitSet2>(&f);
+                crate::solver::eval_to_case(crate::solver::eval_solve(&r), &prop)
+            } else if f[1] == "bits" {
                 let r = crate::solver::parse_req::<crate::hset::BitSet8>(&f);
                 crate::solver::eval_to_case(crate::solver::eval_solve(&r), &prop)
             } else {
